@@ -86,7 +86,8 @@ def run_case(spec):
     y0 = prob.ystar(t0).astype(dt_)
     y0c = y0.copy()
     L = abs(tf - t0)
-    system = sysrun.make_system(f, y0, t0, tf, L / spec["nsteps"], info["cls"], dense=spec["dense"], rtol=1e-7, atol=1e-9)
+    rt_ = 1e-7 if info["order"] > 2 else 1e-5
+    system = sysrun.make_system(f, y0, t0, tf, L / spec["nsteps"], info["cls"], dense=spec["dense"], rtol=rt_, atol=rt_ * 1e-2)
     target = (np.inf * d) if spec["inf"] else None
     import warnings
     trace = DetectionTrace()
@@ -278,7 +279,7 @@ def run_case(spec):
         rec.violate("continuation_prefix", "continuation_modified_rows_before_the_event", f2)
     node2 = max(float(np.max(np.abs(y2[k].astype(np.longdouble) - prob.ystar(float(t2[k]))))) for k in range(n_before - 1, len(t2)))
     rec.worst("continuation_node_error", node2)
-    if info["adaptive"] and node2 > 2000 * (1e-9 + 1e-7 * (1 + ymax)):
+    if info["adaptive"] and node2 > 2000 * (rt_ * 1e-2 + rt_ * (1 + ymax)):
         rec.violate("continuation_accuracy", "states_of_continuation_inaccurate", f2, err=node2)
     if spec["dense"]:
         sysrun.dense_structure(rec, system, f2, expect_times=t2, clause_prefix="continuation_")
